@@ -506,8 +506,46 @@ class AwareASTNode(DataClassSerializeMixin):
 
         return None
 
+    def _check_attach(
+        self,
+        operation: t.Literal["create", "attach", "replace"],
+        seen: dict[str, AwareASTNode],
+    ) -> tuple[AwareASTNode, AwareASTNode] | None:
+        """Dry run of `_attach_inner`: detects the same collisions, but without
+        any side effects, so that a rejected operation leaves nothing behind.
+
+        Args:
+            seen: ids (and nodes) of the subtree that would be registered by now
+        """
+        existing_node = AwareASTNode._nodes.get(self.id, seen.get(self.id))
+        if existing_node is not None:
+            raise ASTNodeRegistryCollisionError(
+                new_node=self,
+                existing_node=existing_node,
+                operation=operation,
+            )
+
+        seen[self.id] = self
+
+        for c in self.get_child_nodes():
+            if c.detached:
+                if (ret := c._check_attach(operation=operation, seen=seen)) is not None:
+                    return ret
+            elif not c.is_attached_root:
+                assert c.parent is not None
+                return (c, c.parent)
+
+        return None
+
     def _attach(self, operation: t.Literal["create", "attach", "replace"]) -> None:
-        if (ret := self._attach_inner(operation=operation)) is not None:
+        # First make sure that the whole subtree can be attached, only then attach.
+        # Otherwise a collision found half way would leave a partially attached tree.
+        ret = self._check_attach(operation=operation, seen={})
+
+        if ret is None:
+            ret = self._attach_inner(operation=operation)
+
+        if ret is not None:
             c, p = ret
             raise ASTNodeParentCollisionError(self, c, p)
 
@@ -757,6 +795,10 @@ class AwareASTNode(DataClassSerializeMixin):
             if was_attached:
                 AwareASTNode._nodes[self.id] = self
 
+                # detach_self() above has cleared the parent of all children
+                for c, f, i in self.get_child_nodes_with_field():
+                    c._set_parent(self, f, i)
+
             if cur_parent is not None:
                 assert cur_parent_field is not None
                 self._set_parent(cur_parent, cur_parent_field, cur_parent_index)
@@ -860,6 +902,7 @@ class AwareASTNode(DataClassSerializeMixin):
                     new_was_attached = False
 
                 # Change the ID of the new node to the old one, and store the old one in original_id
+                new_ids = (new.id, new.original_id)
                 object.__setattr__(new, "original_id", new.id)
                 object.__setattr__(new, "id", self.id)
 
@@ -867,8 +910,10 @@ class AwareASTNode(DataClassSerializeMixin):
                 try:
                     new._attach("replace")
                 except Exception as e:
-                    # If we failed to the attach new node, re-attach the old one
-                    # and raise the exception
+                    # If we failed to the attach new node, give it its ids back,
+                    # re-attach the old one and raise the exception
+                    object.__setattr__(new, "id", new_ids[0])
+                    object.__setattr__(new, "original_id", new_ids[1])
 
                     assert cur_parent_field is not None
                     self._set_parent(cur_parent, cur_parent_field, cur_parent_index)
@@ -908,6 +953,7 @@ class AwareASTNode(DataClassSerializeMixin):
                 new_was_attached = False
 
             # Change the ID of the new node to the old one, and store the old one in original_id
+            new_ids = (new.id, new.original_id)
             object.__setattr__(new, "original_id", new.id)
             object.__setattr__(new, "id", self.id)
 
@@ -915,8 +961,11 @@ class AwareASTNode(DataClassSerializeMixin):
             try:
                 new._attach("replace")
             except Exception as e:
-                # If we failed to the attach new node, re-attach the old one
-                # and raise the exception
+                # If we failed to the attach new node, give it its ids back,
+                # re-attach the old one and raise the exception
+                object.__setattr__(new, "id", new_ids[0])
+                object.__setattr__(new, "original_id", new_ids[1])
+
                 if was_attached:
                     self._attach("replace")
 
